@@ -10,6 +10,17 @@ from baize.typing import Environ, StartResponse, WSGIApp
 from .responses import FileResponse, RedirectResponse, Response
 
 
+def request_path(environ: Environ) -> str:
+    """
+    PEP 3333: PATH_INFO holds the bytes of the request path decoded as latin-1.
+    """
+    path = environ.get("PATH_INFO", "")
+    try:
+        return path.encode("latin-1").decode("utf-8")
+    except UnicodeError:
+        return path
+
+
 class Files(staticfiles.BaseFiles[WSGIApp]):
     """
     Provide the WSGI application to download files in the specified path or
@@ -46,7 +57,7 @@ class Files(staticfiles.BaseFiles[WSGIApp]):
     ) -> Iterable[bytes]:
         if_none_match: str = environ.get("HTTP_IF_NONE_MATCH", "")
         if_modified_since: str = environ.get("HTTP_IF_MODIFIED_SINCE", "")
-        filepath = self.ensure_absolute_path(environ.get("PATH_INFO", ""))
+        filepath = self.ensure_absolute_path(request_path(environ))
         stat_result, is_file = self.check_path_is_file(filepath)
         if is_file and stat_result:
             assert filepath is not None  # Just for type check
@@ -76,7 +87,7 @@ class Pages(Files):
     ) -> Iterable[bytes]:
         if_none_match: str = environ.get("HTTP_IF_NONE_MATCH", "")
         if_modified_since: str = environ.get("HTTP_IF_MODIFIED_SINCE", "")
-        filepath = self.ensure_absolute_path(environ.get("PATH_INFO", ""))
+        filepath = self.ensure_absolute_path(request_path(environ))
         stat_result, is_file = self.check_path_is_file(filepath)
         if (
             stat_result is None  # filepath is not exist
